@@ -36,6 +36,8 @@ pub enum Case {
     Def(String),
     /// a plain result shown in another base and / or digits mode: `<inner> -> [mode] [base]`
     Fmt { inner: Box<Case>, mode: u8, base: u8 },
+    /// the reply for a substance, bare or converted to `[k] unit`: every property it lists
+    Subst { name: String, target: Option<(u32, String)> },
     /// `a -> t` for two plain constants (a dimensionless target that is only a constant factor)
     ConstTarget { a: (u32, u32), t: (u32, u32), unit: Option<String> },
 }
@@ -87,6 +89,11 @@ impl Case {
             Case::Fmt { inner, mode, base } => {
                 format!("{} -> {} {}", inner.text(), FMT_MODES[*mode as usize % FMT_MODES.len()], fmt_base_text(*base))
             }
+            Case::Subst { name, target } => match target {
+                None => name.clone(),
+                Some((1, u)) => format!("{} -> {}", name, u),
+                Some((k, u)) => format!("{} -> {} {}", name, k, u),
+            },
             Case::ConstTarget { a, t, unit } => {
                 let n = |x: &(u32, u32)| if x.1 <= 1 { format!("{}", x.0) } else { format!("{}|{}", x.0, x.1) };
                 match unit {
@@ -513,6 +520,97 @@ pub fn check(env: &Env, case: &Case, st: &mut Stats) -> CaseResult {
                 }
                 Err((sig, d)) => fail(env, st, &sig, &text, format!("shown `{}`: {}", shown, d)),
             }
+        }
+        Case::Subst { name, target } => {
+            let sub = match env.ctx.registry.substances.get(name) {
+                Some(s) => s,
+                None => return Ok(()),
+            };
+            if env.ctx.lookup(name).is_some() || unusable(name).is_some() || sub.amount != rink_core::types::Number::one() {
+                st.excluded("substance name not usable as such (also a unit, or an amount of a substance)");
+                return Ok(());
+            }
+            if let Some((_, u)) = target {
+                if unusable(u).is_some() {
+                    st.excluded("name not usable bare in a query");
+                    return Ok(());
+                }
+            }
+            st.eval();
+            st.class(if target.is_some() { "substance_converted" } else { "substance_bare" });
+            let reply = match rinkx::eval_line(&env.ctx, &text) {
+                Out::Panic(p) => return fail(env, st, &panic_signature(&p), &text, format!("panicked: {}", p)),
+                Out::Reply(QueryReply::Substance(r)) => r,
+                Out::Reply(_) => {
+                    st.excluded("not a substance reply");
+                    return Ok(());
+                }
+                Out::Error(_) => {
+                    st.excluded("substance query refused (no property of that dimensionality)");
+                    return Ok(());
+                }
+            };
+            let mut any_differs = false;
+            for pr in &reply.properties {
+                let prop = match sub.properties.properties.get(&pr.name) {
+                    Some(p) => p,
+                    None => return fail(env, st, "substance-reply-unknown-property", &text, format!("the reply lists `{}`, which the substance does not have", pr.name)),
+                };
+                let (inq, ind) = match number_q(&prop.input) {
+                    Some(q) => (q, rinkx::dims_of(&prop.input)),
+                    None => continue,
+                };
+                let (outq, outd) = match number_q(&prop.output) {
+                    Some(q) => (q, rinkx::dims_of(&prop.output)),
+                    None => continue,
+                };
+                if inq.is_zero() || outq.is_zero() {
+                    continue;
+                }
+                st.class("substance_property_shown");
+                // what the property says: output per input (for a dimensionless input, simply the
+                // output scaled); a reply converted to a unit of the *input's* dimensionality may
+                // show the reciprocal ratio, which the printed unit's dimensionality tells
+                let forward = (outq.div(&inq).unwrap(), dims_mul(&outd, &ind, -1));
+                let backward = (inq.div(&outq).unwrap(), dims_mul(&ind, &outd, -1));
+                let shown = pr.value.to_string();
+                let mut verdict = None;
+                for (v, d) in [&forward, &backward] {
+                    let ex = Expect {
+                        value: v,
+                        dims: d,
+                        check_labels: false,
+                        unmarked: false,
+                        base: 10,
+                    };
+                    match check_parts(env, &pr.value, &inline_none, &ex) {
+                        Ok(differs) => {
+                            any_differs |= differs;
+                            verdict = Some(Ok(()));
+                            break;
+                        }
+                        Err((sig, dtl)) => {
+                            if sig == "printed-unit-wrong-dimension" && verdict.is_none() {
+                                verdict = Some(Err((sig, dtl)));
+                                continue;
+                            }
+                            verdict = Some(Err((sig, dtl)));
+                            break;
+                        }
+                    }
+                }
+                if let Some(Err((sig, dtl))) = verdict {
+                    return fail(
+                        env,
+                        st,
+                        &format!("substance-property:{}", sig),
+                        &text,
+                        format!("property `{}` shown as `{}`: {}", pr.name, shown, dtl),
+                    );
+                }
+            }
+            mark(st, any_differs && !reply.properties.is_empty(), &format!("{} => {} properties", text, reply.properties.len()));
+            Ok(())
         }
         Case::ConstTarget { a, t, unit } => {
             if let Some(u) = unit {
@@ -999,6 +1097,44 @@ pub fn run(cx: &Cx) -> Report {
         |c| json!({"case": c, "text": c.text()}),
     ));
     rep.mark(cx, "constant-targets");
+
+    // substances: every property a substance reply shows, bare and converted
+    let mut items: Vec<Case> = vec![];
+    {
+        let ctx = rinkx::new_ctx();
+        for (name, sub) in ctx.registry.substances.iter() {
+            items.push(Case::Subst { name: name.clone(), target: None });
+            // targets: units of each property's output and input dimensionality, with and without a constant
+            let mut seen: BTreeSet<Dims> = BTreeSet::new();
+            for prop in sub.properties.properties.values() {
+                for side in [&prop.output, &prop.input] {
+                    let d = rinkx::dims_of(side);
+                    if d.is_empty() || !seen.insert(d.clone()) {
+                        continue;
+                    }
+                    let class: Vec<usize> = pool.classes.iter().find(|c| c.first().map(|i| pool.units[*i].dims == d).unwrap_or(false)).cloned().unwrap_or_default();
+                    {
+                        for (j, ui) in class.iter().take(if cx.tier == Tier::Thorough { 12 } else { 3 }).enumerate() {
+                            let u = pool.units[*ui].name.clone();
+                            items.push(Case::Subst { name: name.clone(), target: Some((1, u.clone())) });
+                            items.push(Case::Subst { name: name.clone(), target: Some((2 + j as u32, u)) });
+                        }
+                    }
+                }
+            }
+        }
+    }
+    rep.stats.note("substance_cases", json!(items.len()));
+    let k = known.clone();
+    rep.absorb(par_sweep(
+        cx,
+        "substances",
+        items,
+        move || mk_env(k.clone()),
+        |env, c, st| check(env, c, st),
+        |c| json!({"case": c, "text": c.text()}),
+    ));
+    rep.mark(cx, "substances");
     rep
 }
 
